@@ -869,6 +869,8 @@ MUTANTS.append(dict(prop="C13", name="repair:F22a-chunk-size-shape-tested-before
 # ---- C12-R4 / F23 (fixed in /repo): the reverse of the fix must fire
 MUTANTS.append(dict(prop="C12", name="fixed:F23-multidecoder-flush-reaches-one-layer-only", patch="selftest/patches/f23_fix.diff", reverse=True, rule="C12-R4", benign=False))
 MUTANTS.append(dict(prop="C13", name="fixed:F23-multidecoder-flush-reaches-one-layer-only", patch="selftest/patches/f23_fix.diff", reverse=True, rule="C13-R4", benign=False))
+# ---- C19-R2 / F30 (fixed in /repo): the reverse of the fix must fire
+MUTANTS.append(dict(prop="C19", name="fixed:F30-timeout-accepts-nan", patch="selftest/patches/f30_fix.diff", reverse=True, rule="C19-R2", benign=False))
 # ---- C02-R10 / F29: a scratch variant with wake-up tokens and a closed-state re-check must be silent under C02
 MUTANTS.append(dict(prop="C02", name="repair:F29-close-wakes-waiters", patch="selftest/patches/f29_repair.diff", rule=None, benign=True))
 # ---- C11-R2 / F28 (fixed in /repo): the reverse of the fix must fire
